@@ -5,6 +5,7 @@ package wl
 
 import (
 	"bytes"
+	_ "embed"
 	"encoding/json"
 	"math/rand"
 	"os"
@@ -77,7 +78,18 @@ var Tokens = []string{
 	"javascript:", "JAVASCRIPT:", "vbscript:", "file:", "data:", "data:image/png;", "data:text/html,",
 	// hostile bytes
 	"\x00", "\r", "\r\n", "\x80", "\xc3", "\xe3\x81", "\xff", "\xc3\x28", "é", "あ", "漢字", "한", "​", "　", "。", " ", "\x0b", "\x0c", "\x1b", "\x7f",
+	// Unicode line / paragraph separators, next-line, byte order mark, no-break and zero-width spaces, soft hyphen, a combining mark
+	"\u2028", "\u2029", "\u0085", "\ufeff", "\u00a0", "\u200b", "\u00ad", "\u20d2", "\u2003", "\u3000",
+	// named references whose expansion is not one harmless character
+	"&nvlt;", "&nvgt;", "&NewLine;", "&Tab;", "&lt;", "&gt;", "&bne;", "&fjlig;", "&nbsp;", "&ThickSpace;", "&zwnj;", "&lrm;", "&#x2028;", "&#xFEFF;", "&#65279;",
 }
+
+//go:embed entities.txt
+var entitiesTxt string
+
+// EntityNames are all HTML5 named character references that end in a semicolon ("AElig;" ... "zwnj;"), taken from the
+// table of Go's html package.
+var EntityNames = strings.Fields(entitiesTxt)
 
 // Soup returns a random concatenation of 1..maxTok tokens.
 func Soup(r *rand.Rand, maxTok int) []byte {
@@ -553,9 +565,13 @@ var DeepFamilies = []DeepFamily{
 	{"long-destination", func(n int) []byte { return []byte("[a](<" + rep("u", n) + ">) <http://" + rep("h", n) + ">") }},
 	{"list-number-digits", func(n int) []byte { return []byte(rep("1", n) + ". a\n" + rep("2", n) + ") b") }},
 	{"heading-level", func(n int) []byte { return []byte(rep("#", n) + " a " + rep("#", n) + "\n\na\n" + rep("=", n)) }},
-	{"numeric-reference-digits", func(n int) []byte { return []byte("&#" + rep("1", n) + "; &#x" + rep("f", n) + "; &#0" + rep("0", n) + "65;") }},
+	{"numeric-reference-digits", func(n int) []byte {
+		return []byte("&#" + rep("1", n) + "; &#x" + rep("f", n) + "; &#0" + rep("0", n) + "65;")
+	}},
 	{"fence-length", func(n int) []byte { return []byte(rep("`", n) + "\na\n" + rep("`", n) + "\n" + rep("~", n) + " i\nb") }},
-	{"indent-columns", func(n int) []byte { return []byte(rep(" ", n) + "- a\n" + rep(" ", n) + "> b\n" + rep(" ", n) + "# c\n" + rep(" ", n) + "```\n" + rep(" ", n) + "d") }},
+	{"indent-columns", func(n int) []byte {
+		return []byte(rep(" ", n) + "- a\n" + rep(" ", n) + "> b\n" + rep(" ", n) + "# c\n" + rep(" ", n) + "```\n" + rep(" ", n) + "d")
+	}},
 	{"table-columns", func(n int) []byte {
 		if n > 3000 {
 			n = 3000
@@ -563,7 +579,9 @@ var DeepFamilies = []DeepFamily{
 		return []byte(rep("|a", n) + "|\n" + rep("|:-:", n) + "|\n" + rep("|b", n+1) + "|\n|c|")
 	}},
 	{"heading-attributes", func(n int) []byte { return []byte("# h {" + rep("k=v ", n) + "#i}") }},
-	{"emphasis-run-length", func(n int) []byte { return []byte(rep("*", n) + "a" + rep("*", n) + " " + rep("_", n) + "b" + rep("_", n)) }},
+	{"emphasis-run-length", func(n int) []byte {
+		return []byte(rep("*", n) + "a" + rep("*", n) + " " + rep("_", n) + "b" + rep("_", n))
+	}},
 	// counted structures: n instances of a construct in an order or shape that makes the count matter (the thresholds at
 	// which an implementation switches algorithm, grows or recycles a buffer are unknown, so these are run at every boundary size)
 	{"footnotes-reverse", func(n int) []byte { return footnoteDoc(n, func(i int) int { return n - 1 - i }, 1, false) }},
@@ -621,9 +639,19 @@ var DeepFamilies = []DeepFamily{
 		}
 		return []byte(b.String())
 	}},
-	{"heading-long-title-twice", func(n int) []byte { return []byte("# " + rep("a", n) + "\n\n# " + rep("a", n) + "\n\n# " + rep("a", n) + " b\n") }},
+	{"heading-long-title-twice", func(n int) []byte {
+		return []byte("# " + rep("a", n) + "\n\n# " + rep("a", n) + "\n\n# " + rep("a", n) + " b\n")
+	}},
 	{"table-sparse", func(n int) []byte {
 		n = capN(n, 520)
+		return []byte(rep("|h", n) + "|\n" + rep("|-", n) + "|\n" + rep("|x|\n", n))
+	}},
+	{"table-sparse-xl", func(n int) []byte {
+		// the same beyond half a million padded cells (only run by the checks that name it)
+		if n < 600 {
+			return nil
+		}
+		n = capN(n, 1100)
 		return []byte(rep("|h", n) + "|\n" + rep("|-", n) + "|\n" + rep("|x|\n", n))
 	}},
 	{"table-ragged", func(n int) []byte {
@@ -656,7 +684,9 @@ var DeepFamilies = []DeepFamily{
 	{"list-second-block-after-blank", func(n int) []byte { return []byte(rep("- a\n", capN(n, 5000)) + "- b\n\n  c\n- d\n") }},
 	{"para-lines-then-loose-list", func(n int) []byte { return []byte(rep("text\n", capN(n, 5000)) + "\n- a\n  - b\n\n  - c\n- d\n") }},
 	{"quote-lines-then-loose-list", func(n int) []byte { return []byte(rep("> text\n", capN(n, 5000)) + ">\n> - a\n>\n> - b\n") }},
-	{"item-lines-then-loose-list", func(n int) []byte { return []byte("1. x\n" + rep("   text\n", capN(n, 5000)) + "\n   - a\n\n   - b\n2. y\n") }},
+	{"item-lines-then-loose-list", func(n int) []byte {
+		return []byte("1. x\n" + rep("   text\n", capN(n, 5000)) + "\n   - a\n\n   - b\n2. y\n")
+	}},
 	{"quote-nest-multi-line", func(n int) []byte {
 		n = capN(n, 400)
 		return []byte(rep(">", n) + " a\n" + rep(">", n) + " b\n" + rep(">", n/2) + " c\n")
@@ -665,9 +695,13 @@ var DeepFamilies = []DeepFamily{
 		u := "data:image/png;base64," + rep("A", n) + "&\"x"
 		return []byte("![a](<" + u + " y>) [b](" + u + ") [c][r]\n\n[r]: <" + u + " z>\n")
 	}},
-	{"long-text-special-at-end", func(n int) []byte { return []byte(rep("a", n) + "<&\"\n\n    " + rep("b", n) + "<&\"\n\n`" + rep("c", n) + "<&\"`\n\n```\n" + rep("d", n) + "<\n```\n") }},
+	{"long-text-special-at-end", func(n int) []byte {
+		return []byte(rep("a", n) + "<&\"\n\n    " + rep("b", n) + "<&\"\n\n`" + rep("c", n) + "<&\"`\n\n```\n" + rep("d", n) + "<\n```\n")
+	}},
 	{"long-alt", func(n int) []byte { return []byte("![" + rep("a ", n) + "*b* `c` \"<&](u \"" + rep("t", n) + "<\")") }},
-	{"long-attribute-value", func(n int) []byte { return []byte("# h {title=\"" + rep("a", n) + "<&\" data-x=" + rep("1", n) + "}\n") }},
+	{"long-attribute-value", func(n int) []byte {
+		return []byte("# h {title=\"" + rep("a", n) + "<&\" data-x=" + rep("1", n) + "}\n")
+	}},
 	{"multi-line-inline-title", func(n int) []byte {
 		n = capN(n, 500)
 		return []byte("[a](/u \"" + rep("t\n", n) + "t\") ![b](/v '" + rep("s\n", n) + rep("s", 70) + "') [c](/w (" + rep("r\n", n+1) + "r))\n")
@@ -677,9 +711,15 @@ var DeepFamilies = []DeepFamily{
 		l := rep("a\n", n) + "b"
 		return []byte("p [x]\nq [y]\n\n> [" + l + "] ![" + l + "] [" + l + "][]\n\n[" + strings.ReplaceAll(l, "\n", " ") + "]: /u\n")
 	}},
-	{"lazy-continuation-lines", func(n int) []byte { return []byte("> a\n" + rep("b\n", capN(n, 5000)) + "\n- c\n" + rep("d\n", capN(n, 5000))) }},
-	{"html-block-lines", func(n int) []byte { return []byte("<div>\n" + rep("x\n", capN(n, 5000)) + "</div>\n\n<!--\n" + rep("y\n", capN(n, 5000)) + "-->\nz\n") }},
-	{"fence-lines", func(n int) []byte { return []byte("```\n" + rep("x\n", capN(n, 5000)) + "```\n\n~~~\n" + rep("y\n", capN(n, 5000))) }},
+	{"lazy-continuation-lines", func(n int) []byte {
+		return []byte("> a\n" + rep("b\n", capN(n, 5000)) + "\n- c\n" + rep("d\n", capN(n, 5000)))
+	}},
+	{"html-block-lines", func(n int) []byte {
+		return []byte("<div>\n" + rep("x\n", capN(n, 5000)) + "</div>\n\n<!--\n" + rep("y\n", capN(n, 5000)) + "-->\nz\n")
+	}},
+	{"fence-lines", func(n int) []byte {
+		return []byte("```\n" + rep("x\n", capN(n, 5000)) + "```\n\n~~~\n" + rep("y\n", capN(n, 5000)))
+	}},
 	{"hard-breaks", func(n int) []byte { return []byte(rep("a  \n", capN(n, 5000)) + rep("b\\\n", capN(n, 5000)) + "c") }},
 	{"task-items", func(n int) []byte { return []byte(rep("- [x] a\n- [ ] b\n", capN(n, 3000))) }},
 	{"strikethroughs", func(n int) []byte { return []byte(rep("~~a~~ ~b~ ", capN(n, 5000))) }},
@@ -690,6 +730,23 @@ var DeepFamilies = []DeepFamily{
 	{"emails-and-urls", func(n int) []byte { return []byte(rep("a@b.c http://d.e/f?g=h&i www.j.k ", capN(n, 3000))) }},
 	{"images-in-links", func(n int) []byte { return []byte(rep("[![a](b)](c) ", capN(n, 3000))) }},
 	{"definition-terms", func(n int) []byte { return []byte(rep("t\n", capN(n, 2000)) + ": d\n: e\n") }},
+	{"long-linkified-url", func(n int) []byte {
+		return []byte("see http://a.b/" + rep("x", n) + " end (www.c.d/" + rep("y", n) + ") *e@f.g" + rep("h", capN(n, 60)) + "*\n")
+	}},
+	{"long-destination-with-escapes", func(n int) []byte {
+		u := "/p" + rep("a", n) + "\\_x&amp;y"
+		return []byte("[a](" + u + ") ![b](" + u + " \"t\") [c]\n\n[c]: " + u + "\n")
+	}},
+	{"numeric-reference-leading-zeros", func(n int) []byte {
+		z := rep("0", n)
+		return []byte("[a](&#x" + z + "6a;avascript:alert(1)) [b](&#" + z + "106;avascript:x) ![c](java&#x" + z + "73;cript:y) <&#x" + z + "6a;avascript:z> &#x" + z + "41; [r]\n\n[r]: <vb&#" + z + "115;cript:w>\n")
+	}},
+	{"byte-order-mark", func(n int) []byte {
+		return []byte("\ufeff" + []string{"# title", "- item", "> quote", "```\ncode\n```", "| a |\n|---|\n", "[r]: /u\n\n[r]", "    code", "text"}[n%8] + "\n\n" + rep("\ufeffa\n", capN(n, 200)))
+	}},
+	{"unicode-separators", func(n int) []byte {
+		return []byte(rep("a\u2028b\u2029c\u0085d\u00a0e\n", capN(n, 2000)) + "f  \ng\u2028\nh\n")
+	}},
 	{"nested-emphasis-alternating", func(n int) []byte {
 		n = capN(n, 2000)
 		var b strings.Builder
